@@ -86,6 +86,16 @@ func genG09(repo string, w *Out) error {
 		return err
 	}
 
+	// undo renamings of local variables (harmless refactors) before the shapes are matched
+	for _, x := range []struct {
+		f   *File
+		ref string
+	}{{rf, g09Ref_relay}, {qf, g09Ref_queued_frames}, {hf, g09Ref_h2}} {
+		if ch := g09Unrename(x.f, x.ref); len(ch) > 0 {
+			w.Linef("(* locals renamed back to the reference names in: %s *)", strings.Join(ch, ", "))
+		}
+	}
+
 	// ---- constants
 	for _, c := range [][2]string{
 		{"initialMaxFrameSize", "initial_max_frame_size"},
